@@ -204,8 +204,11 @@ class CHKUploadHelper(Referenceable, upload.CHKUploader):  # type: ignore # warn
 
         # let our fetcher pull ciphertext from the reader.
         self._fetcher.add_reader(reader)
-        # and also hashes
-        self._reader.add_reader(reader)
+        # and also hashes (once the upload has finished or failed there is
+        # nothing left to read: a client that attached to a running upload
+        # but whose request arrives late just gets the outcome below)
+        if self._reader is not None:
+            self._reader.add_reader(reader)
 
         # and inform the client when the upload has finished
         return self._finished_observers.when_fired()
@@ -243,7 +246,7 @@ class CHKUploadHelper(Referenceable, upload.CHKUploader):  # type: ignore # warn
         os.unlink(self._encoding_file)
         self._finished_observers.fire(hur)
         self._helper.upload_finished(self._storage_index, v.size)
-        del self._reader
+        self._reader = None
 
     def _failed(self, f):
         self.log(format="CHKUploadHelper(%(si)s) failed",
@@ -252,7 +255,7 @@ class CHKUploadHelper(Referenceable, upload.CHKUploader):  # type: ignore # warn
                  level=log.UNUSUAL)
         self._finished_observers.fire(f)
         self._helper.upload_finished(self._storage_index, 0)
-        del self._reader
+        self._reader = None
 
 class AskUntilSuccessMixin:
     # create me with a _reader array
